@@ -37,7 +37,7 @@ def required_cells(tier):
     return {"env:ancilla": 6, "env:pttempo": 2, "nenv:1": 3, "nenv:2": 3,
             "nenv:3": 1, "M:1": 1, "M:2": 1, "M:3": 1, "N:1": 1,
             "dissipator:param": 3, "deriv:user": 2, "deriv:numeric": 3,
-            "target:callable": 2, "target:array": 3, "callables-return-stored-arrays": 4, "initial-matrix:non-hermitian": 2, "history:two-dt": 1, "params:structured": 3, "lastbond:closed": 2, "lastbond:cap": 2,
+            "target:callable": 2, "target:array": 3, "callables-return-stored-arrays": 4, "pt:gauged": 4, "initial-matrix:non-hermitian": 2, "history:two-dt": 1, "params:structured": 3, "lastbond:closed": 2, "lastbond:cap": 2,
             "gradient_entries_compared": 100}
 
 
@@ -211,7 +211,12 @@ def run_ancilla(case):
         from vp.checks.c03 import build_pt
         pts = [build_pt(e, nsteps, dt, False, None, "compute") for e in envs]
     else:
-        pts = [ancilla.build_process_tensor(e, nsteps, dt=dt) for e in envs]
+        # every third case: each process tensor in its own random gauge of
+        # the bonds (different, non-trivial final caps per environment)
+        gauged = bool(i % 3 == 1)
+        pts = [ancilla.build_process_tensor(
+            e, nsteps, dt=dt, gauge=gen.rng_for(case["seed"], "c08g", i, j)
+            if gauged else None) for j, e in enumerate(envs)]
     rho0 = gen.rand_state(rng, d)
     # the relation is linear algebra: it holds for any initial matrix, also
     # one that is no density matrix (holomorphic objective then)
@@ -264,6 +269,8 @@ def run_ancilla(case):
     violations, cells, monitors = [], [], {}
     if stored:
         cells.append("callables-return-stored-arrays")
+    if not closed and i % 3 == 1:
+        cells.append("pt:gauged")
     if general_rho0:
         cells.append("initial-matrix:non-hermitian")
     if history:
